@@ -302,8 +302,9 @@ def run_property(pid, tier, keep=False, seed=0):
                     if ob['name'] not in base_set:
                         undecided.append('%s fails but is not in baseline' % ob['name'])
                     else:
+                        import witness as W0
                         violations.append(({'unit': 'kani', 'gen_text': kr.get('output', ''), 'cmd': kr['cmd'], 'rewrites': []}, ob,
-                                           [{'message': kr.get('failed_checks', 'kani harness failed'), 'spans': [], 'rendered': kr.get('output', '')[-6000:], '_clause': kr['harness'], '_cex': kr.get('cex')}]))
+                                           [{'message': kr.get('failed_checks', 'kani harness failed'), 'spans': [], 'rendered': kr.get('output', '')[-6000:], '_clause': kr['harness'], '_cex': W0.from_kani(kr, REPO) if kr.get('cex') else None}]))
                 obligations.append(ob)
 
         # ---- report
@@ -323,8 +324,8 @@ def run_property(pid, tier, keep=False, seed=0):
                 if cex is None:
                     # ask kani results of the same run, then witness search
                     for kr in kani_res:
-                        if kr.get('cex') and set(kr['props']) & {pid}:
-                            cex = {'from': 'kani::' + kr['harness'], 'inputs': kr['cex']}
+                        if kr.get('cex') and set(kr['props']) & {pid} and ob['fn'] in kr.get('items', [ob['fn']]):
+                            cex = W.from_kani(kr, REPO)
                             break
                 if cex is None:
                     try:
